@@ -104,7 +104,7 @@ def check(run, prog, cg, RULE="C06-g"):
     lpc_raising = cg.reaches(callgraph.LPC_SEEDS | {"<unknown>"}, barriers=callgraph.CATCH_BARRIERS | {"fatal"} | callgraph.RAISE_SEEDS)
     # callbacks that reach LPC only through the master's hooks or the snooper's receive_snoop(): a privileged
     # object has to misbehave; reported as undecided
-    lpc_raising_user = cg.reaches(callgraph.LPC_SEEDS | {"<unknown>"}, barriers=callgraph.CATCH_BARRIERS | {"fatal", "apply_master_ob", "safe_apply_master_ob", "receive_snoop"} | callgraph.RAISE_SEEDS)
+    lpc_raising_user = cg.reaches(callgraph.LPC_SEEDS | {"<unknown>"}, barriers=callgraph.CATCH_BARRIERS | {"fatal", "apply_master_ob", "safe_apply_master_ob", "receive_snoop"} | callgraph.RAISE_SEEDS, cut_edges=cg.snoop_edges())
     fresh = fresh_sources(prog)
     run.need(len(fresh) >= 20, "functions returning owned containers (found %d)" % len(fresh))
     n_owner = 0
